@@ -141,6 +141,18 @@ def w19(arg):
                 for diff in range(128):
                     do((st, 1, 100, 1, 200, vrsrc, vrsign, 17, dsign, diff))
                     acc.out.add(("diff", dsign, diff))
+    elif mode == "pyth":
+        # component pairs whose exact speed is an integer (a*a + b*b a perfect square): the cases in which a magnitude that
+        # comes out one ulp low (a different but "equivalent" formula) is truncated to the wrong knot
+        for st in items:
+            for a in range(1, 1023):
+                for b in range(a, 1023):
+                    h2 = a * a + b * b
+                    r_ = math.isqrt(h2)
+                    if r_ * r_ == h2:
+                        for (x, y) in ((a, b), (b, a)):
+                            do((st, a % 2, x + 1, b % 2, y + 1, 0, 0, 9, 0, 3))
+            acc.out.add(("pyth", st))
     elif mode == "diag":
         # arithmetic relations between the two 10-bit fields: the whole diagonal, the anti-diagonal, and neighbours
         for st in items:
@@ -293,6 +305,7 @@ def run(ctx):
     tasks += [("v", ("bg1", [f])) for f in bgf]
     tasks += [("v", ("pairs", [st])) for st in (1, 2, 3, 4)]
     tasks += [("v", ("diag", [st])) for st in (1, 2, 3, 4)]
+    tasks += [("v", ("pyth", [st])) for st in (1, 2)]
     for tc in (5, 6, 7, 8):
         for c in chunks(range(128), 16):
             tasks.append(("s", (tc, list(c))))
